@@ -31,8 +31,8 @@ def showTErr : TErr → String
 
 def showErr : Err → String
   | .invalidRef => "invalid_ref" | .refConflict => "ref_conflict" | .refNotFound => "ref_not_found"
-  | .versionNotFound => "version_not_found" | .notFound => "not_found" | .alreadyExists => "already_exists"
-  | .invalidInput => "invalid_input" | .other => "other"
+  | .versionNotFound => "version_not_found" | .notFound => "not_found" | .targetExists => "target_exists"
+  | .other => "other"
 
 def insertStr (x : String) : List String → List String
   | [] => [x]
@@ -57,7 +57,7 @@ def parseVer (s : String) : Option Nat := parseNatChars s.toList
 def showRead (v : Nat) : ReadOut → String
   | .ok rows => "ok v=" ++ toString v ++ " rows=" ++ showRows rows
   | .noVersion => "err not_found"
-  | .missingFile => "err scan_not_found"
+  | .missingFile => "err scan_other"
 
 def oneRowList (rows : String) : Option (List Row) :=
   match parseRows rows with
@@ -82,7 +82,7 @@ def stepPure (toks : List String) : Option String :=
     let rem := if rem = "-" then [] else (rem.splitOn ",").map untok
     some (match getCleanupPath (untok n) rem rootLoc with
       | .none => "none"
-      | .some p => "some " ++ str (p.drop 2)
+      | .some p => "some " ++ str (if ("r/".toList).isPrefixOf p then p.drop 2 else p)
       | .err => "err")
   | ["fb", cur, target] =>
     let cur := brUntok cur
